@@ -70,7 +70,7 @@ class C17(Check):
     required_probes = [
         "crash_points_enumerated", "lost_writes_enumerated", "load_rejected_incomplete", "load_accepted_complete",
         "special_values", "markers_eq_dim", "overwrite", "foreign_file", "param_mismatch_reader", "rod_io", "eulerian_io",
-        "grid_without_fields", "recovery_after_failed_save", "post_hoc_delete", "reader_object_reused", "file_name_without_h5_suffix", "non_c_contiguous_registered_arrays", "cross_class_reader",
+        "grid_without_fields", "recovery_after_failed_save", "post_hoc_delete", "reader_object_reused", "file_name_without_h5_suffix", "non_c_contiguous_registered_arrays", "cross_class_reader", "rod_io_created_before_finalize", "mixed_precision_in_one_io",
     ]
     tiers = {
         "quick": {"runs": 640, "batch": 8, "timeout": 300},
@@ -92,10 +92,12 @@ class C17(Check):
         names = NAMES[:]
         rng.shuffle(names)
         if cls == "CosseratRodIO":
-            spec["rod"] = {"n_elems": rng.choice([2, 3, 4, 7, 12]), "sub": prng.sub_seed(rng)}
+            spec["rod"] = {"n_elems": rng.choice([2, 3, 4, 7, 12]), "sub": prng.sub_seed(rng), "finalize_after_io": rng.random() < 0.4}
             return spec
         if cls == "EulerianFieldIO" or rng.random() < 0.7:
             size = [rng.randint(2, 7) for _ in range(dim)]
+            if rng.random() < 0.15:
+                size[rng.randrange(dim - 1)] = 1  # a slab / line domain (never along x)
             dx = rng.choice([0.125, 0.01, 1.0, 0.3])
             spec["grid"] = {"origin": [rng.choice([0.0, dx / 2, -1.5, 10.0]) for _ in range(dim)], "dx": dx, "size": size}
             if rng.random() < 0.2:
@@ -119,8 +121,9 @@ class C17(Check):
                         fname = spec["lgrids"][0]["fields"][0]["name"]  # same keyword on two grids
                     else:
                         fname = names.pop() if names else f"x{rng.randrange(1000)}"
-                    fields.append({"name": fname, "kind": rng.choice(["scalar", "vector", "vector"])})
-                spec["lgrids"].append({"name": gname, "n": n, "connect": rng.random() < 0.3, "fields": fields})
+                    fields.append({"name": fname, "kind": rng.choice(["scalar", "vector", "vector"]), "f64": rng.random() < 0.5})
+                spec["lgrids"].append({"name": gname, "n": n, "connect": rng.random() < 0.3, "fields": fields, "f64": rng.random() < 0.5})
+            spec["lag_mixed"] = rng.random() < 0.25  # arrays of both precisions inside one IO object
         return spec
 
     def _mutate_spec(self, rng, spec, dim):
@@ -148,8 +151,9 @@ class C17(Check):
         elif m == "dx":
             s["grid"]["dx"] *= rng.choice([2.0, 0.5, 1.25])
         elif m == "size":
-            ax = rng.randrange(dim)
-            s["grid"]["size"][ax] += rng.choice([1, 2])
+            unit = [a for a in range(dim) if s["grid"]["size"][a] == 1]
+            ax = rng.choice(unit) if unit and rng.random() < 0.7 else rng.randrange(dim)
+            s["grid"]["size"][ax] += rng.choice([1, 2, 4])
         elif m == "extra_efield":
             s["efields"].append({"name": "zz_extra", "kind": rng.choice(["scalar", "vector"])})
         elif m == "extra_lfield":
@@ -268,11 +272,14 @@ class C17(Check):
                 shape = size if f["kind"] == "scalar" else (dim, *size)
                 arrs[("e", f["name"])] = cls._empty(shape, real_t, layout, SENTINEL if fill is None else fill)
         lag_t = np.float64 if spec.get("lag_f64") else real_t  # body arrays are float64 whatever the flow precision
+        mixed = spec.get("lag_mixed", False)
         for gi, g in enumerate(spec["lgrids"]):
-            arrs[("g", gi)] = cls._empty((dim, g["n"]), lag_t, layout, SENTINEL)
+            gt = (np.float64 if g.get("f64") else np.float32) if mixed else lag_t
+            arrs[("g", gi)] = cls._empty((dim, g["n"]), gt, layout, SENTINEL)
             for fi, f in enumerate(g["fields"]):
                 shape = (g["n"],) if f["kind"] == "scalar" else (dim, g["n"])
-                arrs[("l", gi, fi)] = cls._empty(shape, lag_t, layout, SENTINEL)
+                ft = (np.float64 if f.get("f64") else np.float32) if mixed else lag_t
+                arrs[("l", gi, fi)] = cls._empty(shape, ft, layout, SENTINEL)
         return arrs
 
     @staticmethod
@@ -298,6 +305,16 @@ class C17(Check):
             rod.radius[...] *= 1.0 + 0.1 * g.random(rod.radius.shape)
             io = spu.CosseratRodIO(cosserat_rod=rod, dim=dim, real_dtype=real_t)
             extra["rod"] = rod
+            if spec["rod"].get("finalize_after_io") and rod_variant == 0:
+                # as in several examples: the IO object is created first, then the PyElastica simulator is
+                # finalised, which re-binds the rod's arrays to block memory
+                class _Sim(ea.BaseSystemCollection):
+                    pass
+
+                sim_ = _Sim()
+                sim_.append(rod)
+                sim_.finalize()
+                extra["collection"] = sim_
             return io, extra
         if spec["cls"] == "EulerianFieldIO":
             pos = self._position_field(spec["grid"], dim, real_t)
@@ -406,10 +423,14 @@ class C17(Check):
             writers.append({"io": io, "arrs": arrs, "extra": extra, "spec": specs[i]})
             if specs[i]["cls"] == "CosseratRodIO":
                 res.probe("rod_io")
+                if specs[i]["rod"].get("finalize_after_io"):
+                    res.probe("rod_io_created_before_finalize")
             if specs[i]["cls"] == "EulerianFieldIO":
                 res.probe("eulerian_io")
             if specs[i].get("layout", "C") != "C":
                 res.probe("non_c_contiguous_registered_arrays")
+            if specs[i].get("lag_mixed") and len({a.dtype for k, a in arrs.items() if k[0] in ("g", "l")}) > 1:
+                res.probe("mixed_precision_in_one_io")
             if any(g["n"] == dim and any(f["kind"] == "vector" for f in g["fields"]) for g in specs[i]["lgrids"]):
                 res.probe("markers_eq_dim")
             if specs[i]["lgrids"] and not any(g["fields"] for g in specs[i]["lgrids"]):
